@@ -102,27 +102,6 @@ theorem bytesLt_trans : ∀ a b c : Bytes, bytesLt a b = true → bytesLt b c = 
 
 /-! ### `Less` on primitive members, as a specification -/
 
-/-- string, bool or number -/
-def Ty.isPrim : Ty → Bool
-  | .string | .bool | .number => true
-  | _ => false
-
-/-- `setRules{e}.Less(x, y)` for a primitive `e`, written for proof: a null sorts
-after every non-null member, an unknown after every known one, known members by
-byte order / false-before-true / exact numeric comparison; raw-equal members are
-never ordered -/
-def primLessB (e : Ty) (x y : Payload) : Bool :=
-  if rawB e x y then false
-  else if y.isNull && !x.isNull then true
-  else if x.isNull then false
-  else if x.isKnown && !y.isKnown then true
-  else if !x.isKnown then false
-  else match e, x, y with
-    | .string, .s a, .s b => bytesLt (strBytes a) (strBytes b)
-    | .bool, .b a, .b b => b || !a
-    | .number, .n a, .n b => decide (Num.cmp a b < 0)
-    | _, _, _ => false
-
 theorem Ty.isPrim_plain {e : Ty} (h : e.isPrim = true) : e.plain = true ∧ e.wf = true := by
   cases e <;> simp [Ty.isPrim] at h <;> exact ⟨rfl, rfl⟩
 
@@ -169,10 +148,6 @@ theorem primLessB_null_left (e : Ty) (y : Payload) : primLessB e .null y = false
 theorem primLessB_irrefl {e : Ty} (he : e.isPrim = true) {x : Payload} (wx : x.shaped e = true) :
     primLessB e x x = false := by
   simp [primLessB, rawB_refl e x (Ty.isPrim_plain he).1 wx]
-
-/-- the members `d03` proves the order for -/
-def Payload.intMember (e : Ty) (p : Payload) : Bool :=
-  p.shaped e && p.whollyKnown && !p.containsMarked && p.intNums
 
 theorem Payload.intMember_spec {e : Ty} {p : Payload} (h : p.intMember e = true) :
     p.shaped e = true ∧ p.whollyKnown = true ∧ p.containsMarked = false ∧ p.intNums = true := by
